@@ -368,6 +368,12 @@ func genLoopDL(r *Rng, idx int, tier string, step func(op string) string) {
 			break
 		}
 		p := cand[r.Intn(len(cand))]
+		if r.Chance(4) {
+			absorb(peers, step(fmt.Sprintf("snubclose p=%d", p.k)))
+			p.closed = true
+			p.pending = nil
+			continue
+		}
 		if r.Chance(6) {
 			// the peer asks for data (interested or not, choked or not, for a piece we may not have yet)
 			if r.Chance(40) {
@@ -406,7 +412,13 @@ func genLoopDL(r *Rng, idx int, tier string, step func(op string) string) {
 				absorb(peers, step(fmt.Sprintf("disconnect p=%d", p.k)))
 				p.closed = true
 			default:
-				absorb(peers, step(fmt.Sprintf("snub p=%d", p.k)))
+				if r.Chance(50) {
+					// the peer's own snub timer fires while the loop is busy and the connection ends at the same time
+					absorb(peers, step(fmt.Sprintf("snubclose p=%d", p.k)))
+					p.closed = true
+				} else {
+					absorb(peers, step(fmt.Sprintf("snub p=%d", p.k)))
+				}
 			}
 			continue
 		}
